@@ -23,6 +23,8 @@ TEXT = {
  "C16": ("BM_IO.tla: FailIsLast / AfterFailNoWrite (a failed write is the last write), FailReported (error returned, empty buffer), PrefixOfFaultFree, for every write index (transient and permanent) and reader failure offset; checked by TLC; verdict = scripted faulty reader/writer around the real entry points: returned error, number of writes after the failure, accepted bytes a prefix of the fault-free output", "4.4, 6/C16"),
  "C13": ("BM_Conc.tla: K calls on a shared policy interleaved at token granularity; SharedIsReadOnly ([][pol' = pol]), Deterministic (each finished call = Run(pol, doc)), NoCarryOver, checked by TLC over all interleavings; negative control with a zero-value policy; every interleaving replayed on the real code using the token hook as scheduler gate; verdict = outputs equal the sequential ones, snapshot unchanged, and no report from the Go race detector on the ungated 16-goroutine stress run", "4.5, 6/C13, 9"),
  "C14": ("BM_Cost.tla: css.recursiveCheck transcribed as a counted algorithm over an arbitrary verdict matrix; Correct and Polynomial checked by TLC for all matrices up to the bound and adversarial families; conformance of the real function (verdict and handler-call count) on every matrix; end-to-end operation-count budgets for every default handler and growth generators; panic-freedom on recorded byte-level sessions (every call must reach its return event)", "4.6, 6/C14, 9"),
+ "C18": ("MC_Css.tla: structured CSS values (vocabulary atoms + one hostile fragment in one of seven splice modes) enumerated bounded-exhaustively for all 213 default handlers; the specification's verdict (reject / don't care) is computed from the structure; verdict of the check = what css.GetDefaultHandler(prop) really answers, plus the unknown-property handler and end-to-end samples", "4.7, 6/C18, 9"),
+ "C19": ("BM_Matchers.tla: the documented form of each exported matcher as a TLA+ recogniser; closure and hostile-freedom of the documented forms checked by TLC; exhaustive strings up to MaxLen and substitutions of the documented examples compared with the real regexps (accepted => documented form; example => accepted)", "4.7, 6/C19, 9"),
  "C09": ("I09 (balance form): no stray end tag, nothing left open when the input is closed; checked by TLC on all histories; verdict = stack-balance of the re-tokenised real output whenever the input balances", "4.3, 6/C09"),
 }
 NOTE = ("trusted: TLC; x/net/html as tokenizer/parser of record; Go regexp, net/url, douceur for fact tables; the harness oracles and concretiser "
